@@ -616,6 +616,31 @@ JUSTIFIED_MAPPED = {
 }
 
 
+# justification that holds only under a condition: the call must be
+# dominated by a test of which the condition is a conjunct
+REQUIRED_GUARD = {
+    'dd._copy._make_node': "context['load_order']",
+}
+
+
+def under_guard(f, call, cond):
+    au.set_parents(f.node)
+    want = cond.replace(' ', '').replace('"', "'")
+    p, child = getattr(call, '_parent', None), call
+    while p is not None:
+        if isinstance(p, ast.If) and any(
+                child is s or any(child is x for x in ast.walk(s))
+                for s in p.body):
+            t = p.test
+            conj = t.values if isinstance(t, ast.BoolOp) and isinstance(
+                t.op, ast.And) else [t]
+            if any(au.src(x).replace(' ', '').replace('"', "'") == want
+                   for x in conj):
+                return True
+        child, p = p, getattr(p, '_parent', None)
+    return False
+
+
 def classify_site(f, call, path_env):
     """Classification of find_or_add(L, a, b) at one call site."""
     args = call.args
@@ -657,6 +682,7 @@ def r_rebuild(P, R):
         'C12': {'dd.bdd.BDD._load', 'dd._copy._make_node'},
         'C16': {'dd.dddmp.load'},
         'C11': {'dd.bdd._copy_bdd'},
+        'C13': {'dd.bdd._image'},
     }.get(R.prop)
     n = 0
     for f in sorted(P.all_funcs(mods), key=lambda f: f.qualname):
@@ -670,8 +696,51 @@ def r_rebuild(P, R):
             n += 1
             kind, where = classify_site(f, c, None)
             what = f'`{au.short(c, 60)}`: level argument is {kind}'
+            if kind == 'MIN-LEVEL' and isinstance(c.args[0], ast.Name):
+                # the recursion below the top level keeps the order only
+                # if it does not also move variables: a function that
+                # translates the level it splits on (umap[z]) builds its
+                # results at the translated levels
+                lv = c.args[0].id
+                params = set(f.params)
+                moved = None
+                for x in au.walk_no_defs(f.node):
+                    if isinstance(x, ast.Subscript) and isinstance(
+                            x.value, ast.Name) and x.value.id in params \
+                            and au.is_name(x.slice, lv):
+                        moved = x
+                    if isinstance(x, ast.Call) and au.call_name(
+                            x) == 'get' and isinstance(
+                                x.func.value, ast.Name) and \
+                            x.func.value.id in params and x.args and \
+                            au.is_name(x.args[0], lv):
+                        moved = x
+                if moved is not None:
+                    R.violation(
+                        'R-REBUILD', 'min-level-with-renaming', f.qualname,
+                        'find_or_add',
+                        f'`{au.short(c, 60)}` makes a node at the top '
+                        f'level `{lv}` of the operands, but {f.name} also '
+                        f'renames that level (`{au.short(moved)}`): the '
+                        'children come from the recursion, which builds '
+                        'at the renamed levels, so a child can lie above '
+                        f'level `{lv}` (unordered diagram)',
+                        unit=f.unit.rel, line=c.lineno)
+                    continue
             if kind in ('VAR-NODE', 'SAME-NODE', 'MIN-LEVEL'):
                 R.holds('R-REBUILD', f.qualname, what)
+            elif f.qualname in JUSTIFIED_MAPPED and \
+                    f.qualname in REQUIRED_GUARD and not under_guard(
+                        f, c, REQUIRED_GUARD[f.qualname]):
+                R.violation(
+                    'R-REBUILD', 'mapped-level-unguarded', f.qualname,
+                    'find_or_add',
+                    f'`{au.short(c, 60)}` builds a node at a mapped level; '
+                    'that is order preserving only when '
+                    f'`{REQUIRED_GUARD[f.qualname]}` holds, and the call '
+                    'is reached without it (the guard is missing, or is '
+                    'one alternative of an `or`)', unit=f.unit.rel,
+                    line=c.lineno)
             elif f.qualname in JUSTIFIED_MAPPED:
                 R.holds('R-REBUILD', f.qualname,
                         f'{what}; justified: '
